@@ -10,9 +10,12 @@
 package c12
 
 import (
+	"crypto/sha1"
+	"encoding/hex"
 	"encoding/json"
 	"fmt"
 	"os"
+	"path/filepath"
 	"sort"
 	"strings"
 	"sync"
@@ -180,12 +183,38 @@ func (v *Vocab) domJSON(rename func(kind, name string) string) []map[string]inte
 	return out
 }
 
+// The vocabulary is a constant of the specification: spec/css_vocab.json holds what
+// CssGen.vocab.cfg exported together with a hash of the spec modules it came from; when the
+// modules changed it is exported again by TLC (C12_WRITE_VOCAB=1 rewrites the file).
+func specHash(r *core.Run) string {
+	h := sha1.New()
+	for _, f := range []string{"Css.tla", "CssGen.tla"} {
+		b, _ := os.ReadFile(filepath.Join(r.Verif, "spec", f))
+		h.Write(b)
+	}
+	return hex.EncodeToString(h.Sum(nil))
+}
+
 func loadVocab(r *core.Run) *Vocab {
+	path := filepath.Join(r.Verif, "spec", "css_vocab.json")
+	want := specHash(r)
+	if b, err := os.ReadFile(path); err == nil {
+		var f struct {
+			Hash  string `json:"hash"`
+			Vocab Vocab  `json:"vocab"`
+		}
+		if json.Unmarshal(b, &f) == nil && f.Hash == want && len(f.Vocab.Dom) > 0 {
+			f.Vocab.index()
+			return &f.Vocab
+		}
+	}
 	var voc *Vocab
+	var rawVoc json.RawMessage
 	res, err := tlcrun.Run(r, tlcrun.Options{Module: "CssGen", Config: "CssGen.vocab.cfg", Workers: 1, TimeoutSec: 300, OnCase: func(raw []byte) {
 		var v Vocab
 		if err := json.Unmarshal(raw, &v); err == nil && len(v.Dom) > 0 {
 			voc = &v
+			rawVoc = append(json.RawMessage{}, raw...)
 		} else if err != nil {
 			r.Logf("vocab decode: %v", err)
 		}
@@ -193,6 +222,12 @@ func loadVocab(r *core.Run) *Vocab {
 	if err != nil || voc == nil {
 		r.Infra("CssGen vocabulary export failed: %v %s", err, tail(res))
 		return nil
+	}
+	if os.Getenv("C12_WRITE_VOCAB") != "" {
+		b, _ := json.Marshal(map[string]interface{}{"hash": want, "vocab": rawVoc})
+		os.WriteFile(path, b, 0644)
+	} else {
+		r.Logf("spec/css_vocab.json is stale; vocabulary exported by TLC")
 	}
 	voc.index()
 	return voc
